@@ -624,7 +624,7 @@ class Coverage:
                     attr = d.split('.')[1]
                     if attr in self.w.method_names and len(d.split('.')) == 2:
                         return []                                   # a bound method: the receiver is what matters, below
-                    if attr in self.w.class_attrs and self.texts & {'self', 'cls', 'type(self)', 'self.__class__'}:
+                    if attr in self.w.class_attrs and self.texts & {'self', 'cls', 'type(self)', 'self.__class__'} and not getattr(self, 'inherited_lookup', False):
                         return []                                   # a class-level attribute, and the key says which class
                     if root == 'cls' and attr.startswith('__') and attr.endswith('__') and 'cls' in self.texts:
                         return []                                   # part of the definition of the class the key names
@@ -692,7 +692,7 @@ class Coverage:
                             out += self.uncovered(sub.slice, bound, f, env, depth)
                             if not isinstance(sub.value, ast.Name) and text(sub.value) not in self.exclude_tables:
                                 out += self.uncovered(sub.value, bound, f, env, depth)
-                        elif isinstance(sub, ast.Attribute) and isinstance(sub.ctx, ast.Store) and not isinstance(sub.value, ast.Name):
+                        elif isinstance(sub, ast.Attribute) and isinstance(sub.ctx, ast.Store) and not isinstance(sub.value, ast.Name) and text(sub.value) not in self.exclude_tables:
                             out += self.uncovered(sub.value, bound, f, env, depth)
                 if e.value is not None:
                     out += self.uncovered(e.value, bound, f, env, depth)
@@ -1200,6 +1200,34 @@ def findings(repo: Repo) -> List[Finding]:
         for slot, sops in slots.items():
             if any(o.kind == 'store' for o in sops) and any(o.kind == 'lookup' and o.form in ('T.get(K)', 'K in T') for o in sops):
                 out += _judge_table(w, 'self.__dict__', 'instance', [(f, sops, [])], [f], f.relpath, f.node.lineno, slot=slot)
+    # 3b. a named attribute of the object or of its class, read with a default and set under a test
+    for f in list(w.fns.values()):
+        if not (f.is_method() or (f.cls is not None and f.parent is None)):
+            continue
+        slots2: Dict[Tuple[str, str], List[Op]] = {}
+        par: Dict[int, ast.AST] = {}
+        for n in ast.walk(f.node):
+            for c in ast.iter_child_nodes(n):
+                par[id(c)] = n
+
+        def stmt_of(x_):
+            while not isinstance(x_, ast.stmt):
+                x_ = par[id(x_)]
+            return x_
+
+        OWNERS = ('self', 'type(self)', 'cls', 'self.__class__')
+        for x in own_nodes(f.node):
+            if isinstance(x, ast.Call) and dotted(x.func) == 'getattr' and len(x.args) == 3 and text(x.args[0]) in OWNERS and isinstance(x.args[1], ast.Constant) \
+                    and isinstance(x.args[1].value, str):
+                slots2.setdefault((text(x.args[0]), x.args[1].value), []).append(Op('lookup', 'T.get(K)', x.args[1], None, x, stmt_of(x)))
+            elif isinstance(x, ast.Call) and dotted(x.func) == 'setattr' and len(x.args) == 3 and text(x.args[0]) in OWNERS and isinstance(x.args[1], ast.Constant):
+                slots2.setdefault((text(x.args[0]), x.args[1].value), []).append(Op('store', 'T[K]=V', x.args[1], x.args[2], x, stmt_of(x)))
+            elif isinstance(x, ast.Attribute) and isinstance(x.ctx, ast.Store) and text(x.value) in OWNERS and isinstance(par.get(id(x)), (ast.Assign, ast.AnnAssign)):
+                st = par[id(x)]
+                slots2.setdefault((text(x.value), x.attr), []).append(Op('store', 'T[K]=V', ast.Constant(value=x.attr), st.value, x, st))
+        for (owner, attr), sops in slots2.items():
+            if any(o.kind == 'store' for o in sops) and any(o.kind == 'lookup' for o in sops):
+                out += _judge_table(w, f'{owner}.<attributes>', 'attribute', [(f, sops, [])], [f], f.relpath, f.node.lineno, slot=attr, owner_text=owner)
     # 4. functools.lru_cache / cache
     for f in list(w.fns.values()):
         if any(dotted(dc) in LRU_DECORATORS or (isinstance(dc, ast.Call) and dotted(dc.func) in LRU_DECORATORS) for dc in f.node.decorator_list):
@@ -1208,9 +1236,10 @@ def findings(repo: Repo) -> List[Finding]:
     return out
 
 
-def _judge_table(w: World, name: str, lifetime: str, writers, users, relpath: str, line: int, owner: Optional[RawFn] = None, slot: Optional[str] = None) -> List[Finding]:
+def _judge_table(w: World, name: str, lifetime: str, writers, users, relpath: str, line: int, owner: Optional[RawFn] = None, slot: Optional[str] = None,
+                 owner_text: Optional[str] = None) -> List[Finding]:
     out: List[Finding] = []
-    label = name if slot is None else f"self.__dict__[{slot!r}]"
+    label = name if slot is None else (f"self.__dict__[{slot!r}]" if owner_text is None else f'{owner_text}.{slot}')
     user_names = tuple(sorted({u.qual for u in users} | ({owner.qual} if owner else set())))
     for (f, ops, other) in writers:
         try:
@@ -1218,6 +1247,13 @@ def _judge_table(w: World, name: str, lifetime: str, writers, users, relpath: st
                 raise Unread(f'`{text(other[0])[:60]}`: a use of the table that is not a lookup or a store by key')
             pr = Protocol(w, f, name, ops, lifetime)
             pr.read()
+            if owner_text is not None:
+                # the object the attribute sits on is part of what the entry is looked up by - except that getattr() on a class
+                # also finds the attribute of a base class: the class is then *not* determined by the lookup
+                if owner_text == 'self':
+                    pr.material.append(ast.Name(id='self', ctx=ast.Load()))
+                else:
+                    pr.inherited_lookup = True
             # other functions that use the table by key (read-only users: they see what the protocol keeps)
             out += _completeness(w, pr, label, relpath, user_names)
             out += _sharing(w, pr, label, relpath, user_names, users)
@@ -1230,6 +1266,9 @@ def _completeness(w: World, pr: Protocol, label: str, relpath: str, users) -> Li
     f = pr.f
     fixed: Set[str] = set()
     cov = Coverage(w, f, pr.material, pr.lifetime, hit=lambda e: pr._is_hit(e, pr.store_node.id), exclude_tables={pr.tname})
+    if getattr(pr, 'inherited_lookup', False):
+        cov.inherited_lookup = True
+    cov.exclude_tables |= {pr.tname.split('.<attributes>')[0]}
     unc: List[str] = []
     lf = f.lf
     for nid in sorted(pr.region):
@@ -1360,6 +1399,8 @@ def _sharing(w: World, pr: Protocol, label: str, relpath: str, users, user_fns) 
                 judged = True
                 # storing the entry back into the table itself is the protocol, not a use
                 if isinstance(node, ast.Assign) and any(isinstance(t, ast.Subscript) and text(t.value) == pr.tname for t in node.targets):
+                    continue
+                if any(node is o_.stmt or node is o_.node for o_ in pr.stores):
                     continue
                 out.append(Finding('shared-result' if mut != 'unknown' else 'unread', label, f.qual, fn_.relpath, getattr(node, 'lineno', 0),
                                    f'`{label}` keeps {_describe(mut)} and {fn_.name}() {"stores that very object in" if verdict == "kept" else "changes that very object through"} '
@@ -1630,6 +1671,10 @@ def owned(repo: Repo, node: ast.AST) -> Optional[str]:
         elif isinstance(x, ast.Call) and isinstance(x.func, ast.Attribute) and x.func.attr in ('add', 'setdefault') and isinstance(x.func.value, ast.Name):
             if x.func.value.id in labels:
                 return x.func.value.id
+        if isinstance(x, ast.Attribute) and isinstance(x.ctx, ast.Store) and f'{text(x.value)}.{x.attr}' in labels:
+            return f'{text(x.value)}.{x.attr}'
+        if isinstance(x, ast.Call) and dotted(x.func) == 'setattr' and len(x.args) == 3 and isinstance(x.args[1], ast.Constant) and f'{text(x.args[0])}.{x.args[1].value}' in labels:
+            return f'{text(x.args[0])}.{x.args[1].value}'
         if tgt is not None:
             if isinstance(tgt.value, ast.Name) and tgt.value.id in labels:
                 return tgt.value.id
